@@ -115,6 +115,16 @@ def streams(tier, rng):
     n = 6000 if tier == 'quick' else 150000
     for fl in FLAVORS:
         cases = [make(rng) for _ in range(n if fl == 'default' else n // 3)]
+        # a remainder left at the start of the buffer by an earlier call (with older bytes behind it) and executed by a zero-length
+        # call: the readers must stop at the end of the remainder, not run on into what an earlier message left in the buffer
+        rtable = [(1, b'NUM', 'PI32:1'), (2, b'VAL', 'PD:1'), (3, b'BIG', 'PI64:1;PU64:0'), (4, b'TEXT', 'PTEXT:8:1')]
+        for first, rest in ((b'NUM 12345\n', b'NUM 9'), (b'VAL 1.00125\n', b'VAL 7'), (b'BIG 123456789012,77\n', b'BIG 5'), (b'NUM 99999999\r\n', b'NUM -1'),
+                            (b'TEXT "abcdefgh"\n', b'NUM 3'), (b'NUM 12345\n', b'VAL 2e'), (b'VAL 123456.789\n', b'NUM #H1'), (b'NUM 77777\n', b'BIG 1,2')):
+            for cap in (64, len(first + rest) + 1, 32):
+                if cap - 1 < len(first + rest):
+                    continue
+                for ins in ([('I', first + rest), ('I', b'')], [('I', first), ('I', rest), ('I', b'')], [('I', first + rest[:2]), ('I', rest[2:]), ('I', b'')]):
+                    cases.append(gen.scenario(cap, 8, rtable, ins))
         yield {'name': 'streams-' + fl, 'coqcheck': fl == 'default', 'flavor': fl, 'cases': cases, 'model': fl in ('default',), 'project': project,
                'nontrivial': lambda c, o: c if (' H' in o or ' E-1' in o or ' E-2' in o) else None}
     if tier == 'thorough':
